@@ -119,6 +119,8 @@ class Session:
                 return "done", res
             except seams.Crash as c:
                 return "crashed", str(c)
+            except Exception as e:  # the run / resume itself failed: an outcome the oracle judges
+                return "raised", f"{type(e).__name__}: {str(e)[:200]}"
             finally:
                 impl_mod.MPSBackendImpl.save_simulation = orig_save
                 logging.getLogger("emulators").handlers.clear()
